@@ -46,6 +46,8 @@ class FrameMonitor(BaseMonitor):
             o = st.heap.get(v.addr)
             if isinstance(o, dict) and not o.get('__state') and not o.get('__input'):
                 o['__local'] = d['n']
+                if 'rewind_guard<tao::pegtl::rewind_mode::required' in d['t'] and self.own_frame(ex, fr):
+                    o['__guard_site'] = core.rel(d.get('loc') or '')
                 if self.own_frame(ex, fr) and 'rewind_guard' not in d['t'] and 'unwind_guard' not in d['t']:
                     st.events.append(('new', d['t'], d.get('static', False)))
 
@@ -59,9 +61,14 @@ class FrameMonitor(BaseMonitor):
         ii = next((i for i, d in enumerate(descs) if d[0] == 'input'), None)
         rest = tuple(descs[ii + 1:]) if ii is not None else tuple(descs)
         callee_rule = cc.get('s') or (cta['types'][0] if cta['types'] else cq)
-        return ('call', cta['A'], mode, tuple(cta['tmpl']), callee_rule, descs[ii] if ii is not None else None, rest, core.rel(e.get('loc') or ''))
+        guards = tuple(sorted(set(st.heap[o[2].addr].get('__guard_site') for o in st.live
+                                  if isinstance(o[2], Obj) and isinstance(st.heap.get(o[2].addr), dict) and st.heap[o[2].addr].get('__guard_site'))))
+        entry = 'free' if cq == 'tao::pegtl::match' else 'member'
+        return ('call', cta['A'], mode, tuple(cta['tmpl']), callee_rule, descs[ii] if ii is not None else None, rest, core.rel(e.get('loc') or ''), guards, entry)
 
     def call(self, ex, e, cu, cq, cn, ob, objloc, av, st, fr):
+        if cn == 'operator()' and isinstance(ob, Obj) and isinstance(st.heap.get(ob.addr), dict) and st.heap[ob.addr].get('__guard_site'):
+            st.events.append(('release', st.heap[ob.addr]['__guard_site']))
         if cn == 'success' and self.own_frame(ex, fr):
             vals = [ex.argval(a, st) for a in av]
             descs = tuple(self.desc(ex, v, st) for v in vals)
@@ -163,6 +170,10 @@ def expected_frame(fn, own, ncall, ev, nstates):
     return exp
 
 
+ACTION_CLASSES = {T + 'change_state', T + 'change_states', T + 'change_action', T + 'change_action_and_state', T + 'change_action_and_states', T + 'change_control',
+                  T + 'enable_action', T + 'disable_action', T + 'add_state', T + 'instantiate', T + 'limit_bytes', T + 'limit_depth', T + 'check_bytes',
+                  T + 'discard_input', T + 'discard_input_on_success', T + 'discard_input_on_failure', T + 'control_action'}
+
 SPECIAL_STATE_PARAMS = {   # callers that thread an extra non-state parameter (checked by their own property)
     T + 'raw_string', I + 'raw_string_until', T + 'http::chunk', T + 'http::internal::chunk_helper::control',
 }
@@ -175,11 +186,24 @@ def check_fn(db, fn, never_false=frozenset()):
     tn, ca = class_targs(fn)
     probs = []; ncalls = 0
     kind = STATE_RULES.get(tn)
+    released = set(e[1] for (evs, ek, v) in out for e in evs if isinstance(e, tuple) and e[0] == 'release')
     for (evs, exit_kind, val), n in out.items():
         calls = [e for e in evs if isinstance(e, tuple) and e[0] == 'call']
         for i, c in enumerate(calls):
             ncalls += 1
-            _, A2, M2, tm2, rule2, inp2, states2, loc, res = c
+            _, A2, M2, tm2, rule2, inp2, states2, loc, guards, entry, res = c
+            for g in guards:
+                if g not in released and A2 != 0:
+                    probs.append(('F-lookahead', 'sub-rule %s is matched with apply_mode::%s under the rewind guard declared at %s, which is never released on any path (a look-ahead): actions must be disabled inside it' % (short(rule2), amode(A2), g)))
+            if tn in ACTION_CLASSES and len(tm2) >= 2 and len(own['tmpl']) >= 2:
+                # an action class' match must re-enter through Control< Rule >::match exactly when it switches the action
+                # (so that NewAction< Rule >::match is honoured); with the action unchanged it must use the free match<>()
+                # (Control< Rule >::match would dispatch to Action< Rule >::match, i.e. to itself, again)
+                switched = tm2[-2] != own['tmpl'][-2]
+                if switched and entry != 'member':
+                    probs.append(('F-entry', 'the action is switched to %s but the sub-match does not go through Control< Rule >::match, so %s< Rule >::match is never consulted' % (tm2[-2], tm2[-2])))
+                if not switched and entry != 'free':
+                    probs.append(('F-entry', 'the action is unchanged but the sub-match goes through Control< Rule >::match, which dispatches to Action< Rule >::match again'))
             exp = expected_frame(fn, own, i, c, nstates)
             if A2 is not None and exp['A'] is not None and A2 != exp['A']:
                 if not (tn == I + 'if_apply' and A2 == 1 and own['A'] == 1):
@@ -206,7 +230,7 @@ def check_scope(fn, kind, tn, ca, own, evs, exit_kind, val, nstates):
     names = [e[0] for e in evs if isinstance(e, tuple)]
     if any(e == ('success-throw',) for e in evs): return probs
     outer = tuple(('param', i) for i in range(nstates))
-    want_success = (exit_kind == 'return' and val is True and calls and calls[-1][-1] == 'T')
+    want_success = (exit_kind == 'return' and val is True and calls and calls[-1][-1] in ('T+', 'T0'))
     if kind.startswith('action') and own['A'] != 1: want_success = False
     if exit_kind == 'throw' or val is False: want_success = False
     if kind in ('rule-state', 'action-state', 'action-addstate'):
@@ -236,7 +260,7 @@ def check_scope(fn, kind, tn, ca, own, evs, exit_kind, val, nstates):
             if s[5] == 'D': probs.append(('S-success', 'success() is called with a DIRTY cursor'))
     else:
         if succ:
-            why = 'the rule did not match' if not (calls and calls[-1][-1] == 'T') else ('actions are disabled' if kind.startswith('action') and own['A'] != 1 else 'the exit is %s %s' % (exit_kind, val))
+            why = 'the rule did not match' if not (calls and calls[-1][-1] in ('T+', 'T0')) else ('actions are disabled' if kind.startswith('action') and own['A'] != 1 else 'the exit is %s %s' % (exit_kind, val))
             probs.append(('S-success', 'success() is called although %s' % why))
     return probs
 
